@@ -10,7 +10,9 @@ frames, any length), every incomplete remainder `tail` (the peer closing at any 
 FIN / RST), every subscription state and every argument combination (`timeout` class, `ack`, `sync_check`):
 `read_meets_spec`, `read_consumes_one_frame`, `read_decided`, `read_faithful`, `read_filtered`, `kind_cases`,
 `next_call_returns_following_frame`, `eof_is_connection_lost`, `dead_socket_is_lost`, `disconnected_refuses`,
-`advance_tracks_model`, `history_meets_spec`, `fuel_irrelevant` — one session, subscription state injected.
+`advance_tracks_model`, `history_meets_spec` (histories with subscription changes *and changes of the local definition
+table* between reads: every read is judged against the table of its time; `read_after_defs_change`, `wf_ignores_defs`),
+`fuel_irrelevant` — one session, subscription state injected.
 
 **Second layer, several sessions of one client object** — theorems about `Model/ClientReadLife.lean`: the
 constructor, `connect()` *with the wait for the ACK on the new connection's byte stream* (`waitAck`: the nested loop
@@ -298,18 +300,32 @@ theorem advance_tracks_model (cfg : Cfg) (p : Pre) (a : Args) (hw : p.wf cfg = t
     rw [h0] at h1
     exact ⟨p', h1, h2, by simpa [Pre.st, Pre.sock] using h3, by simpa [Pre.st] using congrArg St.sub h3⟩
 
+/-- being a well-formed input does not depend on the local definitions (only on the header size) -/
+theorem wf_ignores_defs (cfg : Cfg) (defs : List Def) (p : Pre) : p.wf { cfg with defs := defs } = p.wf cfg := by
+  have hf : Frame.wf { cfg with defs := defs } = Frame.wf cfg := by funext f; simp [Frame.wf]
+  simp [Pre.wf, hf, tailIncomplete, tailHasHeader, tailBadLen]
+
+/-- **the table at the time of the read**: a read after a change of the local definition table is the read of a
+client whose table was the new one all along - nothing of the earlier table is remembered -/
+theorem read_after_defs_change (cfg : Cfg) (defs : List Def) (cs : List Call) (st : St) :
+    runCalls cfg (.setDefs defs :: cs) st = runCalls { cfg with defs := defs } cs st := rfl
+
 /-- **Every history.**  For every queue, every ending and every sequence of reads with arbitrary subscription
-changes in between, each read of the history meets the Spec in the pre-state the earlier calls left behind
+changes and arbitrary changes of the local definition table in between, each read of the history meets the Spec — stated
+against the table as it is at the time of that read — in the pre-state the earlier calls left behind
 (the resynchronisation and filtering clauses therefore hold "even when such messages were already queued" and
 "the next call returns the following frame intact", at any depth). -/
-theorem history_meets_spec (cfg : Cfg) : ∀ (calls : List Call) (p : Pre), p.wf cfg = true →
+theorem history_meets_spec : ∀ (cfg : Cfg) (calls : List Call) (p : Pre), p.wf cfg = true →
     histOk cfg p calls (runCalls cfg calls p.st) = true
-  | [], _, _ => by simp [histOk]
-  | .setSub sub :: cs, p, hw => by
+  | _, [], _, _ => by simp [histOk]
+  | cfg, .setSub sub :: cs, p, hw => by
     have hw' : ({ p with sub := sub } : Pre).wf cfg = true := by simpa [Pre.wf] using hw
     have := history_meets_spec cfg cs { p with sub := sub } hw'
     simpa [histOk, runCalls, Pre.st, Pre.sock] using this
-  | .read tmo ack sync :: cs, p, hw => by
+  | cfg, .setDefs defs :: cs, p, hw => by
+    have hw' : p.wf { cfg with defs := defs } = true := by rw [wf_ignores_defs]; exact hw
+    simpa [histOk, runCalls] using history_meets_spec { cfg with defs := defs } cs p hw'
+  | cfg, .read tmo ack sync :: cs, p, hw => by
     have hspec := read_meets_spec cfg p ⟨tmo, ack, sync⟩ hw
     simp only [runCalls, histOk, Bool.and_eq_true, Bool.or_eq_true, beq_iff_eq]
     refine ⟨hspec, ?_⟩
@@ -617,6 +633,19 @@ example : (runCalls exCfg [.read .pos false true, .read .pos false true, .setSub
       .read .pos false true, .read .pos false true, .read .pos false true]
     (exPre [fSize, fGood, fGood, fSignal] [] .fin).st).map (·.res) =
     [.invalidDef, .msg fGood.hdr [1, 2], .msg fSignal.hdr [], .lost, .notConnected] := by decide +kernel
+
+/-- the local definition table changes between reads (type 10 registered again with 3 bytes, type 77 defined, type 12
+removed): the frame that matched the old layout is now refused and consumed whole, the one that matches the new layout
+is returned, the formerly unknown type is decoded, the removed one is unknown — each read uses the table of its time -/
+example : (runCalls exCfg [.read .pos false true, .setDefs [⟨10, 3, 99⟩, ⟨11, 0, 5⟩, ⟨77, 3, 1⟩], .setSub ⟨true, []⟩,
+      .read .pos false true, .read .pos false true, .read .pos false true, .read .pos false true]
+    (exPre [fGood, fGood, fSize, fUnknown, fUnsub] [] .idle).st).map (·.res) =
+    [.msg fGood.hdr [1, 2], .invalidDef, .msg fSize.hdr [1, 2, 3], .msg fUnknown.hdr [4, 5, 6],
+     .unknownType fUnsub.hdr [9]] := by decide +kernel
+example : histOk exCfg (exPre [fGood, fGood, fSize] [] .idle)
+    [.read .pos false true, .setDefs [⟨10, 3, 99⟩], .read .pos false true, .read .pos false true]
+    [⟨.msg fGood.hdr [1, 2], 50, true⟩, ⟨.msg fGood.hdr [1, 2], 50, true⟩, ⟨.invalidDef, 51, true⟩] = false := by
+  decide +kernel      -- a client that keeps decoding with the stale definition (the seeded change C08h) fails the Spec
 
 /-! several sessions -/
 
